@@ -46,6 +46,7 @@ type Outcome struct {
 	Records  []map[string]any
 	LastLog  string // last line of the progress log: the input in flight when it died
 	Stderr   string // tail of stderr (panic message / goroutine dump)
+	Stdout   string // tail of stdout (testing package messages)
 	PanicSig string // condensed signature of a crash
 }
 
@@ -94,6 +95,13 @@ func Run(sp Spec, timeout time.Duration) *Outcome {
 		if len(o.LastLog) > 4000 {
 			o.LastLog = o.LastLog[:4000] + "...(truncated)"
 		}
+	}
+	if b, err := os.ReadFile(filepath.Join(dir, "stdout")); err == nil {
+		s := string(b)
+		if len(s) > 3000 {
+			s = s[len(s)-3000:]
+		}
+		o.Stdout = s
 	}
 	if b, err := os.ReadFile(filepath.Join(dir, "stderr")); err == nil {
 		s := string(b)
